@@ -50,6 +50,7 @@ const (
 	spSpan // also used for AST nodes (a node is its span)
 	spFilename
 	spZeroSpan
+	spTok // a lexer token read from the parser (span = start..end of that token)
 )
 
 const (
@@ -94,6 +95,7 @@ type spState struct {
 	calls     map[types.Object]*spCallRec
 	pend      []spPend
 	trail     []string
+	defers    []*ast.DeferStmt
 }
 
 func spClone(s *spState) *spState {
@@ -111,6 +113,7 @@ func spClone(s *spState) *spState {
 	}
 	n.pend = append([]spPend(nil), s.pend...)
 	n.trail = append([]string(nil), s.trail...)
+	n.defers = append([]*ast.DeferStmt(nil), s.defers...)
 	return n
 }
 
@@ -141,6 +144,24 @@ type spRoles struct {
 	summHi   map[string]int
 	changed  bool
 	tokSpanF *types.Var // lexer.Token.Span
+	// pure: parser methods that cannot move the parser and only compute a value
+	// (local definitions, then one return): evaluated at the call site.
+	pure    map[*types.Func]*spPure
+	inlined map[*types.Func]int // how often a pure helper with a construction was decided at a call site
+	// lead: for a location parameter of a consuming method, the least number of
+	// tokens every caller has definitely consumed between reading the start
+	// location it passes and the call (collected while the summaries are computed)
+	lead   map[*types.Func]map[int]int
+	frozen bool
+}
+
+type spPure struct {
+	fd     *ast.FuncDecl
+	recv   types.Object
+	params []types.Object
+	pre    []ast.Stmt
+	ret    ast.Expr
+	builds bool // contains a span construction
 }
 
 func spResolveRoles(c *Ctx) *spRoles {
@@ -256,7 +277,104 @@ func spResolveRoles(c *Ctx) *spRoles {
 	if r.next == nil {
 		fatalf("anchor unresolved: the parser method that calls Lexer.NextToken and shifts current→previous")
 	}
+	r.resolvePure()
 	return r
+}
+
+// resolvePure finds the parser methods whose body is `[x := e]* ; return e`
+// and that call no parser method except other such helpers: they consume no
+// token, so a call is the value of the returned expression with the operands
+// substituted.
+func (r *spRoles) resolvePure() {
+	r.pure = map[*types.Func]*spPure{}
+	r.inlined = map[*types.Func]int{}
+	r.lead = map[*types.Func]map[int]int{}
+	cand := map[*types.Func]*spPure{}
+	for fn, fd := range r.decls {
+		sig := fn.Type().(*types.Signature)
+		if sig.Recv() == nil || recvNamed(sig.Recv().Type()) != r.parserT || fn == r.next || sig.Results().Len() != 1 || sig.Variadic() {
+			continue
+		}
+		if r.isErrPtr(sig.Results().At(0).Type()) {
+			continue
+		}
+		n := len(fd.Body.List)
+		if n == 0 {
+			continue
+		}
+		ret, ok := fd.Body.List[n-1].(*ast.ReturnStmt)
+		if !ok || len(ret.Results) != 1 {
+			continue
+		}
+		shape := true
+		for _, st := range fd.Body.List[:n-1] {
+			as, ok := st.(*ast.AssignStmt)
+			if !ok || as.Tok != token.DEFINE || len(as.Lhs) != len(as.Rhs) {
+				shape = false
+			}
+		}
+		if !shape {
+			continue
+		}
+		pu := &spPure{fd: fd, pre: fd.Body.List[:n-1], ret: ret.Results[0]}
+		if fd.Recv != nil && len(fd.Recv.List) > 0 && len(fd.Recv.List[0].Names) > 0 {
+			pu.recv = r.info.Defs[fd.Recv.List[0].Names[0]]
+		}
+		ok = true
+		for _, f := range fd.Type.Params.List {
+			if len(f.Names) == 0 {
+				ok = false
+			}
+			for _, nm := range f.Names {
+				pu.params = append(pu.params, r.info.Defs[nm])
+			}
+		}
+		if !ok {
+			continue
+		}
+		ast.Inspect(fd.Body, func(m ast.Node) bool {
+			switch x := m.(type) {
+			case *ast.FuncLit:
+				ok = false
+			case *ast.CallExpr:
+				if CalleeOf(r.info, x) == r.until {
+					pu.builds = true
+				}
+			case *ast.CompositeLit:
+				if tv := r.info.Types[x]; tv.Type != nil && types.Identical(tv.Type, r.spanT) {
+					pu.builds = true
+				}
+			}
+			return true
+		})
+		if ok {
+			cand[fn] = pu
+		}
+	}
+	// drop candidates that call a parser method which is not itself a candidate
+	for changed := true; changed; {
+		changed = false
+		for fn, pu := range cand {
+			bad := false
+			ast.Inspect(pu.fd.Body, func(m ast.Node) bool {
+				if call, ok := m.(*ast.CallExpr); ok {
+					if cf := CalleeOf(r.info, call); cf != nil && cf != fn && r.decls[cf] != nil {
+						if sig := cf.Type().(*types.Signature); sig.Recv() != nil && recvNamed(sig.Recv().Type()) == r.parserT && cand[cf] == nil {
+							bad = true
+						}
+					} else if cf == fn {
+						bad = true
+					}
+				}
+				return true
+			})
+			if bad {
+				delete(cand, fn)
+				changed = true
+			}
+		}
+	}
+	r.pure = cand
 }
 
 func spFieldOf(info *types.Info, e ast.Expr) *types.Var {
@@ -271,7 +389,7 @@ func spFieldOf(info *types.Info, e ast.Expr) *types.Var {
 }
 
 func (r *spRoles) isConsumer(fn *types.Func) bool {
-	if fn == nil {
+	if fn == nil || r.pure[fn] != nil {
 		return false
 	}
 	sig, ok := fn.Type().(*types.Signature)
@@ -328,7 +446,10 @@ type spFuncRun struct {
 	fn      *types.Func
 	recv    *types.Var
 	consts  map[types.Object]bool
-	sites   map[ast.Node]*spSite // nil in summary mode
+	sites   map[ast.Node]*spSite  // nil in summary mode
+	recvs   map[types.Object]bool // receivers of the pure helpers being evaluated
+	over    []*spSite             // call-site obligations the constructions of an inlined helper belong to
+	depth   int
 	siteKey map[ast.Node]string
 	order   map[string]*spOrderFact // "Type|f<g"
 	argObs  map[string]*spSite
@@ -454,8 +575,13 @@ func (run *spFuncRun) walk() {
 	st := &spState{env: map[types.Object]*spVal{}, errNil: map[types.Object]int8{}, calls: map[types.Object]*spCallRec{}}
 	entryCur := &spCap{off: 0, why: "current token at entry"}
 	entryPrev := &spCap{off: -1, why: "previous token at entry"}
+	pidx := -1
 	for _, f := range run.fd.Type.Params.List {
+		if len(f.Names) == 0 {
+			pidx++
+		}
 		for _, n := range f.Names {
+			pidx++
 			obj := info.Defs[n]
 			if obj == nil {
 				continue
@@ -463,8 +589,15 @@ func (run *spFuncRun) walk() {
 			switch {
 			case types.Identical(obj.Type(), r.locT):
 				// a start location captured by the caller before this construct: its
-				// token is at or before the token current at entry
-				st.env[obj] = &spVal{k: spLoc, edge: edgeStart, ub: entryCur, desc: "param " + n.Name}
+				// token is at or before the token current at entry — by as many tokens
+				// as every caller definitely consumes between the capture and the call
+				ub := entryCur
+				if r.frozen && run.sites != nil {
+					if l, ok := r.lead[run.fn][pidx]; ok && l > 0 {
+						ub = &spCap{off: 0, D: -l, why: fmt.Sprintf("current token at entry (every caller consumes >=%d token(s) after reading the start it passes)", l)}
+					}
+				}
+				st.env[obj] = &spVal{k: spLoc, edge: edgeStart, ub: ub, desc: "param " + n.Name}
 			case r.isAstType(obj.Type()):
 				e := &spVal{k: spLoc, edge: edgeEnd, ub: entryPrev, desc: "param " + n.Name + " end"}
 				s := &spVal{k: spLoc, edge: edgeStart, ub: entryPrev, desc: "param " + n.Name + " start"}
@@ -483,6 +616,10 @@ func (run *spFuncRun) walk() {
 			return st, run.cond(st, cond, taken)
 		},
 		OnRange: func(st *spState, rg *ast.RangeStmt) (*spState, bool) {
+			return st, true
+		},
+		OnDefer: func(st *spState, d *ast.DeferStmt) (*spState, bool) {
+			st.defers = append(st.defers, d)
 			return st, true
 		},
 		Exit: func(st *spState, o outcome) { run.exit(st, o) },
@@ -513,7 +650,11 @@ func spIsFallthroughAt(fd *ast.FuncDecl, p token.Pos) bool {
 
 func (run *spFuncRun) isRecv(e ast.Expr) bool {
 	id, ok := ast.Unparen(e).(*ast.Ident)
-	return ok && run.recv != nil && run.r.info.Uses[id] == run.recv
+	if !ok {
+		return false
+	}
+	obj := run.r.info.Uses[id]
+	return obj != nil && (run.recv != nil && obj == run.recv || run.recvs[obj])
 }
 
 // tokenField: e is self.<cur|prev> → 0 / -1.
@@ -577,7 +718,18 @@ func (run *spFuncRun) eval(st *spState, e ast.Expr, ctx string) *spVal {
 				return spTokSpan(run.capNow(st, off), off == 0, exprStr(x))
 			}
 		}
+		// self.Cur / self.Prev as a value (copied into a local, passed to a helper)
+		if off, ok := run.tokenField(x); ok {
+			c := run.capNow(st, off)
+			return &spVal{k: spTok, lb: c, ub: c, cur: off == 0, desc: exprStr(x)}
+		}
 		base := run.eval(st, x.X, ctx)
+		if base.k == spTok {
+			if f == r.tokSpanF {
+				return spTokSpan(base.lb, base.cur, base.desc+"."+f.Name())
+			}
+			return &spVal{k: spUnknown, desc: exprStr(x)}
+		}
 		if base.k == spSpan {
 			switch {
 			case types.Identical(f.Type(), r.locT) && f.Name() == "Start":
@@ -643,6 +795,9 @@ func (run *spFuncRun) eval(st *spState, e ast.Expr, ctx string) *spVal {
 		if fn == r.until {
 			sel := ast.Unparen(x.Fun).(*ast.SelectorExpr)
 			return run.construct(st, x, sel.X, x.Args[0], x.Args[1], nil, ctx)
+		}
+		if pu := r.pure[fn]; fn != nil && pu != nil {
+			return run.inline(st, x, pu, ctx)
 		}
 		if fn != nil && r.isConsumer(fn) {
 			// effects are applied by stmt(); the value is bound there
@@ -716,7 +871,54 @@ func (run *spFuncRun) site(n ast.Node) *spSite {
 	if run.sites == nil {
 		return nil
 	}
+	if len(run.over) > 0 {
+		return run.over[len(run.over)-1]
+	}
 	return run.sites[n]
+}
+
+// inline evaluates a call of a pure helper: parameters and receiver bound to
+// the operands, local definitions applied, the returned expression evaluated
+// in the caller's state. Constructions inside belong to the call site.
+func (run *spFuncRun) inline(st *spState, call *ast.CallExpr, pu *spPure, ctx string) *spVal {
+	if run.depth >= 4 || len(call.Args) != len(pu.params) {
+		return &spVal{k: spUnknown, desc: exprStr(call.Fun) + "(…)"}
+	}
+	vals := make([]*spVal, len(call.Args))
+	for i, a := range call.Args {
+		vals[i] = run.eval(st, a, ctx)
+	}
+	for i, o := range pu.params {
+		if o == nil {
+			continue
+		}
+		if vals[i].k == spUnknown {
+			delete(st.env, o)
+		} else {
+			st.env[o] = vals[i]
+		}
+	}
+	if pu.recv != nil {
+		if run.recvs == nil {
+			run.recvs = map[types.Object]bool{}
+		}
+		if sel, ok := ast.Unparen(call.Fun).(*ast.SelectorExpr); ok && run.isRecv(sel.X) {
+			run.recvs[pu.recv] = true
+		}
+	}
+	if run.sites != nil {
+		if s := run.sites[call]; s != nil && len(run.over) == 0 {
+			run.over = append(run.over, s)
+			defer func() { run.over = run.over[:len(run.over)-1] }()
+			run.r.inlined[run.r.info.Defs[pu.fd.Name].(*types.Func)]++
+		}
+	}
+	run.depth++
+	defer func() { run.depth-- }()
+	for _, s := range pu.pre {
+		run.stmt(st, s)
+	}
+	return run.eval(st, pu.ret, ctx)
 }
 
 func (s *spSite) set(check string, status Status, detail string) {
@@ -891,6 +1093,21 @@ func (run *spFuncRun) applyCall(st *spState, call *ast.CallExpr, fn *types.Func)
 	for i, a := range call.Args {
 		if i < sig.Params().Len() && types.Identical(sig.Params().At(i).Type(), r.locT) {
 			v := run.eval(st, a, "")
+			if !r.frozen {
+				lead := 0
+				if v.k == spLoc && v.ub != nil {
+					lead = st.D - v.ub.D - v.ub.off
+					if lead < 0 {
+						lead = 0
+					}
+				}
+				if r.lead[fn] == nil {
+					r.lead[fn] = map[int]int{}
+				}
+				if old, ok := r.lead[fn][i]; !ok || lead < old {
+					r.lead[fn][i] = lead
+				}
+			}
 			key := fmt.Sprintf("%s|start argument of %s", spFuncKey(run.fd), fn.Name())
 			if run.argObs != nil {
 				s := run.argObs[key]
@@ -1191,6 +1408,46 @@ func (run *spFuncRun) exit(st *spState, o outcome) {
 	if !success {
 		return
 	}
+	// deferred calls run after the result operands were evaluated: a deferred
+	// consuming call consumes the token a pending End was read from; a deferred
+	// closure that builds a span (into a named result) sees the final state
+	for i := len(st.defers) - 1; i >= 0; i-- {
+		d := st.defers[i]
+		if call, fn := run.consumerCall(d.Call); call != nil {
+			run.applyCall(st, call, fn)
+			delete(st.calls, nil)
+			continue
+		}
+		if fl, ok := ast.Unparen(d.Call.Fun).(*ast.FuncLit); ok {
+			// `if err == nil { result.Range = … }`: on a successful exit the guarded
+			// statements run; they are evaluated in sequence
+			var flat func(list []ast.Stmt)
+			flat = func(list []ast.Stmt) {
+				for _, s := range list {
+					switch x := s.(type) {
+					case *ast.ExprStmt, *ast.AssignStmt, *ast.DeclStmt, *ast.IncDecStmt:
+						run.stmt(st, s)
+					case *ast.BlockStmt:
+						flat(x.List)
+					case *ast.IfStmt:
+						if x.Init != nil {
+							run.stmt(st, x.Init)
+						}
+						flat(x.Body.List)
+						if x.Else != nil {
+							flat([]ast.Stmt{x.Else})
+						}
+					case *ast.ReturnStmt, *ast.EmptyStmt:
+					default:
+						run.undec = append(run.undec, "deferred closure with control flow at "+r.c.Pos(s.Pos()))
+					}
+				}
+			}
+			flat(fl.Body.List)
+			continue
+		}
+		run.eval(st, d.Call, "defer")
+	}
 	run.success++
 	if st.D < run.lo {
 		run.lo = st.D
@@ -1247,6 +1504,7 @@ func spanShapeAnalyse(c *Ctx) *spanShapeResult {
 	}
 	r := spResolveRoles(c)
 	r.computeSummaries()
+	r.frozen = true
 	res := &spanShapeResult{order: map[string]*spOrderFact{}}
 	p := c.Pkg("homescript/parser")
 	var fds []*ast.FuncDecl
@@ -1254,6 +1512,7 @@ func spanShapeAnalyse(c *Ctx) *spanShapeResult {
 		fds = append(fds, fd)
 	}
 	sort.Slice(fds, func(i, j int) bool { return fds[i].Pos() < fds[j].Pos() })
+	var helperObs []spHelperOb
 	for _, fd := range fds {
 		fn, _ := r.info.Defs[fd.Name].(*types.Func)
 		if fn == nil {
@@ -1273,13 +1532,27 @@ func spanShapeAnalyse(c *Ctx) *spanShapeResult {
 				case *ast.AssignStmt:
 					if len(x.Lhs) == len(x.Rhs) {
 						for i := range x.Rhs {
-							visit(x.Rhs[i], exprStr(x.Lhs[i]))
+							lctx := exprStr(x.Lhs[i])
+							// result.Field = … on a node-typed variable is the field of that node type
+							if sel, ok := ast.Unparen(x.Lhs[i]).(*ast.SelectorExpr); ok {
+								if id, ok := ast.Unparen(sel.X).(*ast.Ident); ok {
+									if t := r.info.Types[id].Type; t != nil && r.isAstType(t) {
+										lctx = spTypeName(t) + "." + sel.Sel.Name
+									}
+								}
+							}
+							visit(x.Rhs[i], lctx)
 						}
 						return false
 					}
 				case *ast.CallExpr:
 					if CalleeOf(r.info, x) == r.until {
 						spAddSite(r, fd, x, ctx, sites, &ordered, count)
+					} else if pu := r.pure[CalleeOf(r.info, x)]; pu != nil && pu.builds {
+						// a helper that builds the span from its operands: the
+						// construction is decided here, where the operands are known
+						spAddSite(r, fd, x, ctx, sites, &ordered, count)
+						return false
 					} else if f := CalleeOf(r.info, x); f != nil {
 						visit(x.Fun, ctx)
 						for _, a := range x.Args {
@@ -1316,7 +1589,11 @@ func spanShapeAnalyse(c *Ctx) *spanShapeResult {
 		run := &spFuncRun{r: r, fd: fd, fn: fn, consts: map[types.Object]bool{}, sites: sites, order: res.order, argObs: map[string]*spSite{}}
 		run.walk()
 		for _, s := range ordered {
-			res.obs = append(res.obs, spSiteObligation(c, s, run))
+			ob := spSiteObligation(c, s, run)
+			if pu := r.pure[fn]; pu != nil && pu.builds && len(pu.params) > 0 {
+				helperObs = append(helperObs, spHelperOb{fn, len(res.obs)})
+			}
+			res.obs = append(res.obs, ob)
 		}
 		var akeys []string
 		for k := range run.argObs {
@@ -1328,8 +1605,22 @@ func spanShapeAnalyse(c *Ctx) *spanShapeResult {
 			res.obs = append(res.obs, Obligation{Key: k, Pos: c.Pos(s.pos), Status: s.checks["arg"], Detail: s.detail["arg"]})
 		}
 	}
+	// a span-building helper is decided with the operands of each call site; on
+	// its own (operands unknown) it says nothing once every use was decided
+	for _, h := range helperObs {
+		if n := r.inlined[h.fn]; n > 0 {
+			ob := &res.obs[h.idx]
+			ob.Status, ob.Nontrivial = Info, false
+			ob.Detail = fmt.Sprintf("span-building helper without token consumption: decided at its %d call site(s) with the operands given there", n)
+		}
+	}
 	spanShapeCache[c] = res
 	return res
+}
+
+type spHelperOb struct {
+	fn  *types.Func
+	idx int
 }
 
 func spAddSite(r *spRoles, fd *ast.FuncDecl, n ast.Node, ctx string, sites map[ast.Node]*spSite, ordered *[]*spSite, count map[string]int) {
